@@ -9,7 +9,7 @@
    and, below, the per-family conjunctions quoted by Properties/C08.v. *)
 From Coq Require Import ZArith List Bool.
 From AQ Require Export Evm.OpsModel Evm.OpsSpec Evm.OpsTableSpec
-  Evm.OpsProofsArith Evm.OpsProofsGas Evm.OpsProofsJumpdest Evm.OpsProofsTable Evm.OpsProofsMem Evm.OpsProofsEnv Evm.OpsProofsGasState Evm.OpsProofsNarrow Evm.OpsProofsGasStep Evm.OpsMemStep Evm.OpsProofsMemGas Evm.OpsProofsMemStep Evm.OpsAlias Evm.OpsProofsAlias.
+  Evm.OpsProofsArith Evm.OpsProofsGas Evm.OpsProofsJumpdest Evm.OpsProofsTable Evm.OpsProofsMem Evm.OpsProofsEnv Evm.OpsProofsGasState Evm.OpsProofsNarrow Evm.OpsProofsGasStep Evm.OpsMemStep Evm.OpsProofsMemGas Evm.OpsProofsMemStep Evm.OpsAlias Evm.OpsProofsAlias Evm.OpsProofsGasRules.
 Import ListNotations.
 Local Open Scope Z_scope.
 
